@@ -44,10 +44,16 @@ pub enum Msg {
     /// request for an owned piece
     Request(u8),
     KeepAlive,
+    /// not a message on the connection under test: another, well-behaved peer completes this many pieces meanwhile
+    /// (the manager broadcasts a Have for each to every connection task)
+    OthersComplete(u8),
 }
 
 #[derive(Clone, Debug, Serialize, Deserialize)]
 pub struct Case {
+    /// a torrent with 140 pieces and a second, serving peer (so that many pieces can complete during the script)
+    #[serde(default)]
+    pub many: bool,
     pub outgoing: bool,
     pub msgs: Vec<Msg>,
     pub seed: u64,
@@ -80,10 +86,16 @@ fn strategy() -> BoxedStrategy<Case> {
         2 => Just(vec![Msg::Handshake(good.clone()), Msg::Bitfield, Msg::Interested]),
         3 => Just(vec![]),
     ];
-    (any::<bool>(), first, vec(msg, 0..14), any::<u64>())
-        .prop_map(|(outgoing, mut first, rest, seed)| {
+    (any::<bool>(), first, vec(msg, 0..14), any::<u64>(), prop::bool::weighted(0.12))
+        .prop_map(|(outgoing, mut first, rest, seed, many)| {
             first.extend(rest);
-            Case { outgoing, msgs: first, seed }
+            if many {
+                // the completions come early: before, right after, or instead of the remote's handshake
+                let at = (seed % 3) as usize;
+                let at = at.min(first.len());
+                first.insert(at, Msg::OthersComplete(60 + (seed >> 8) as u8 % 70));
+            }
+            Case { many, outgoing, msgs: first, seed }
         })
         .boxed()
 }
@@ -91,7 +103,8 @@ fn strategy() -> BoxedStrategy<Case> {
 pub fn check(c: &Case) -> Outcome {
     let mut o = Outcome::new();
     fresh_cwd();
-    let geo = Geometry::single(8, 32, c.seed);
+    let npieces = if c.many { 140 } else { 4 };
+    let geo = Geometry::single(8, 8 * npieces, c.seed);
     let t = Torrent::new(geo);
     let ih = t.info_hash();
     let c2 = c.clone();
@@ -103,9 +116,25 @@ pub fn check(c: &Case) -> Outcome {
             let mut classes: Vec<&'static str> = vec![];
             let mut net = Net::new(&t2);
             // the client owns pieces 0..=2 (downloaded for real), lacks piece 3
-            if !seed_pieces(w, &mut net, &[true, true, true, false]).await {
+            let mut owned0 = vec![false; npieces];
+            owned0[0] = true;
+            owned0[1] = true;
+            owned0[2] = true;
+            if !seed_pieces(w, &mut net, &owned0).await {
                 return (vec![("harness-setup-failed".to_string(), "set-up download did not complete".to_string())], classes, w.fatal());
             }
+            // the serving peer of the `many` cases
+            let helper = if c.many {
+                let h = net.connect(w, false);
+                net.handshake(w, h);
+                net.bitfield(w, h, &vec![true; npieces]);
+                net.observe(w).await;
+                net.unchoke(w, h);
+                net.observe(w).await;
+                Some(h)
+            } else {
+                None
+            };
             let p = net.connect(w, c.outgoing);
             let conn = net.peers[p].conn;
             let expected_id = net.peers[p].id;
@@ -123,7 +152,23 @@ pub fn check(c: &Case) -> Outcome {
                     classes.push("closed-by-client-before-end-of-script");
                     break;
                 }
+                if let Msg::OthersComplete(k) = m {
+                    if let Some(h) = helper {
+                        let mut done = 0;
+                        for _ in 0..*k {
+                            if !net.alive(w, h) || net.answer(w, h, 0).is_none() {
+                                break;
+                            }
+                            done += 1;
+                            net.observe(w).await;
+                        }
+                        if done > 64 {
+                            classes.push(">64-pieces-completed-meanwhile");
+                        }
+                    }
+                }
                 let bytes: Vec<u8> = match m {
+                    Msg::OthersComplete(_) => vec![],
                     Msg::Handshake(h) => {
                         let mut hash = ih;
                         match &h.hash {
@@ -180,7 +225,11 @@ pub fn check(c: &Case) -> Outcome {
                         }
                         b
                     }
-                    Msg::Bitfield => wire::encode(&RFrame::Bitfield(wire::bits_to_bytes(&[false, false, false, true]))),
+                    Msg::Bitfield => {
+                        let mut bits = vec![false; npieces];
+                        bits[3] = true;
+                        wire::encode(&RFrame::Bitfield(wire::bits_to_bytes(&bits)))
+                    }
                     Msg::Interested => wire::encode(&RFrame::Interested),
                     Msg::Unchoke => wire::encode(&RFrame::Unchoke),
                     Msg::Have(i) => wire::encode(&RFrame::Have(*i as u32 % 4)),
@@ -189,7 +238,7 @@ pub fn check(c: &Case) -> Outcome {
                 };
                 let before_len = net.peers[p].log.len();
                 let bad_before = bad_hs_read && !matches!(m, Msg::Handshake(_));
-                if !net.peers[p].closed {
+                if !net.peers[p].closed && !bytes.is_empty() {
                     w.send(conn, &bytes);
                 }
                 net.observe(w).await;
@@ -300,14 +349,14 @@ pub fn check(c: &Case) -> Outcome {
 pub fn def() -> PropDef {
     PropDef {
         id: "C08",
-        rule: "the client first downloads 3 of 4 pieces from an honest set-up peer (so files and statuses are consistent); then one connection (incoming: no expected id; outgoing: expected id) receives up to 15 messages: handshakes with protocol string right / wrong of the same length / wrong length, info-hash right / one bit off / random, peer id expected / different, at the first position, late, repeated or absent, mixed with bitfield, interested, unchoke, have, keep-alive and requests for owned pieces. Oracle on the bytes the client wrote, the KillReq and the manager snapshot: after a well-formed handshake with a foreign hash (or, outgoing, a foreign id) nothing more is written, the task ends, the peer is forgotten; the client's handshake is exactly 19|BitTorrent protocol|8x0|info_hash|own id, sent once and first; on an incoming connection nothing but keep-alives is written before a valid handshake has been read; no Piece frame before a valid handshake on any connection. Non-trivial = handshake not first, or some field invalid; distinct by hash of the case.",
+        rule: "(12 % of the cases: a 140-piece torrent and a second, serving peer that completes 60-129 pieces - one Have broadcast each - at a generated point of the script) the client first downloads 3 of 4 pieces from an honest set-up peer (so files and statuses are consistent); then one connection (incoming: no expected id; outgoing: expected id) receives up to 15 messages: handshakes with protocol string right / wrong of the same length / wrong length, info-hash right / one bit off / random, peer id expected / different, at the first position, late, repeated or absent, mixed with bitfield, interested, unchoke, have, keep-alive and requests for owned pieces. Oracle on the bytes the client wrote, the KillReq and the manager snapshot: after a well-formed handshake with a foreign hash (or, outgoing, a foreign id) nothing more is written, the task ends, the peer is forgotten; the client's handshake is exactly 19|BitTorrent protocol|8x0|info_hash|own id, sent once and first; on an incoming connection nothing but keep-alives is written before a valid handshake has been read; no Piece frame before a valid handshake on any connection. Non-trivial = handshake not first, or some field invalid; distinct by hash of the case.",
         assumptions: &["a handshake whose protocol string is malformed makes the rest of that stream undecodable for the reference model: afterwards only the 'nothing before a valid handshake' clauses are asserted"],
         subs: vec![Sub {
             name: "handshakes",
             cases: |t| t.pick(20_000, 300_000),
             run: |ctx| run_proptest(ctx, "handshakes", strategy(), check),
             replay: |v| replay_case::<Case>(v, check),
-            min_class: &[("handshake-late", 0.0941), ("handshake-absent", 0.061), ("wrong-info-hash", 0.1), ("wrong-peer-id", 0.0241), ("wrong-protocol-string", 0.05), ("served-after-valid-handshake", 0.05), ("repeated-valid-handshake", 0.03), ("outgoing", 0.2509), ("incoming", 0.2491)],
+            min_class: &[("handshake-late", 0.0941), ("handshake-absent", 0.061), ("wrong-info-hash", 0.1), ("wrong-peer-id", 0.0241), ("wrong-protocol-string", 0.05), ("served-after-valid-handshake", 0.05), ("repeated-valid-handshake", 0.03), ("outgoing", 0.2509), ("incoming", 0.2491), (">64-pieces-completed-meanwhile", 0.025)],
         }],
     }
 }
